@@ -292,6 +292,9 @@ func runC14(c *Ctx) {
 				c.Law(outTokens(oi) == fmt.Sprintf("ok:[I:%d]", wantIdx), "C14/indexof-oracle", "indexOf(t) is the position, counted in characters, of the first occurrence of t (-1 if there is none)", fmt.Sprintf("%q.indexOf(%q)", s, p), outTokens(oi))
 			}
 			rep := randStr(c.rng, 2)
+			if c.rng.Intn(3) == 0 { // a substitution is text, never a template: '$' groups and back-references mean themselves
+				rep = Pick(c.rng, []string{"$5", "$$", "$0", "${1}", "$name", "$1x", "\\1", "$", "a$0b", "${0}", "$$$"})
+			}
 			orp := eval("%s.replace(%a0, %a1)", r, pv, system.String(rep))
 			c.Emit("srepl "+hs+" "+hp+" "+hexs(rep), outTokens(orp), nt)
 			checkUTF8(orp, "replace")
